@@ -19,7 +19,7 @@ ASSUMPTIONS = ['ridge/regularisation tolerance 2*EPS32 = 2.4e-7', 'numpy eigvals
 def cases(seed, tier):
     rng = rng_for(seed, 'C02')
     out = []
-    reps = 90 if tier == 'quick' else 2500
+    reps = 90 if tier == 'quick' else 5000
     extras_pool = [[], [], ['duplicate'], ['negated'], ['affine'], ['noisy_copy'], ['two_valued'], ['constant'],
                    ['duplicate', 'constant'], ['negated', 'noisy_copy'], ['timestamp'], ['tiny_values'], ['sum'],
                    ['sum', 'timestamp'], ['outlier'], ['outlier', 'sum']]
